@@ -1,6 +1,8 @@
 package main
 
 import (
+	"go/constant"
+	"go/types"
 	"fmt"
 	"go/token"
 	"strings"
@@ -261,6 +263,48 @@ func runC02(c *Ctx) {
 			return false
 		})
 		c.Check(okR2, "R2", key+":after-publish", p.InstrPos(pb.call), "after the publish only success or the publish's own error is returned", why)
+
+		// ---- R5: success means the verified file was moved into place ----------------------------------
+		// Every feasible path on which this function can report success (a return whose error is nil or not
+		// known to be non-nil) runs through the publish, or hands the decision to another download function /
+		// a direction that does not download. A shortcut such as "something already exists at the final path"
+		// taken before the move leaves whatever is there — possibly a truncated leftover — as the object.
+		okR5 := true
+		whyR5 := ""
+		pubKey := nonNil{call} // pseudo key: "the publish ran on this path"
+		ExploreX(fn.Blocks[0], nil, nil, noret, nil, nil, func(in ssa.Instruction, st PState) bool {
+			if in == ssa.Instruction(call) {
+				st[pubKey] = ssa.NewConst(constant.MakeBool(true), types.Typ[types.Bool])
+				return true
+			}
+			r, ok := in.(*ssa.Return)
+			if !ok {
+				return true
+			}
+			if len(r.Results) == 0 {
+				return false
+			}
+			ev := Base(Resolve(r.Results[len(r.Results)-1], st), st)
+			if _, nn := st[nonNil{ev}]; nn || NeverNil(ev) {
+				return false // a failure
+			}
+			if _, done := st[pubKey]; done {
+				return false
+			}
+			// delegation: the result of another function that transfers (the recursive re-request, the upload arm)
+			if cc, _, isRes := CallResult(ev); isRes && cc.Call.StaticCallee() != nil && cc.Call.StaticCallee().Pkg == fn.Pkg {
+				return false
+			}
+			if cst, isC := EvalConst(ev, st); isC && cst.Value == nil || true {
+				if !inDownloadArm(p, fn, r, call) {
+					return false
+				}
+				okR5 = false
+				whyR5 = "the function can report success at " + p.InstrPos(r) + " without having moved the verified file to the object's final path (e.g. because something already exists there): stale or truncated bytes stay in place under the OID"
+			}
+			return false
+		})
+		c.Check(okR5, "R5", key+":success-implies-publish", p.InstrPos(pb.call), "every successful return of the download path ran the move into place", whyR5)
 	}
 	// sibling cross-check: every DoTransfer implementation reachable for downloads publishes through a guarded site
 	for _, name := range []string{"(*basicDownloadAdapter).DoTransfer", "(*SSHAdapter).DoTransfer", "(*customAdapter).DoTransfer"} {
@@ -751,4 +795,59 @@ var c02Canaries = []Canary{
 	{Name: "restart-with-stale-offset", ExpectKey: "C02.R3", Edits: []Edit{{File: "tq/basic_download.go", Find: "			return a.download(t, cb, authOkFunc, dlFile, 0, nil)", Repl: "			return a.download(t, cb, authOkFunc, dlFile, fromByte, nil)"}}},
 	{Name: "download-to-final-path", ExpectKey: "C02.R4", Edits: []Edit{{File: "tq/ssh.go", Find: "	f, err := tools.TempFile(a.tempDir(), t.Oid, a.fs)\n	if err != nil {\n		return err\n	}\n	tmpName := f.Name()\n	defer func() {\n		if f != nil {\n			f.Close()\n		}\n		os.Remove(tmpName)\n	}()\n\n	return a.doDownload(", Repl: "	f, err := os.Create(t.Path)\n	if err != nil {\n		return err\n	}\n	tmpName := f.Name()\n	defer func() {\n		if f != nil {\n			f.Close()\n		}\n		os.Remove(tmpName + \".x\")\n	}()\n\n	return a.doDownload("}}},
 	{Name: "error-after-publish", ExpectKey: "C02.R2", Edits: []Edit{{File: "tq/ssh.go", Find: "	err = tools.RenameFileCopyPermissions(dlfilename, t.Path)\n	if _, err2 := os.Stat(t.Path); err2 == nil {\n		// Target file already exists, possibly was downloaded by other git-lfs process\n		return nil\n	}\n	return err\n}\n\nfunc (a *SSHAdapter) verifyUpload", Repl: "	err = tools.RenameFileCopyPermissions(dlfilename, t.Path)\n	if _, err2 := os.Stat(t.Path); err2 == nil {\n		// Target file already exists, possibly was downloaded by other git-lfs process\n		if written != actualSize {\n			return errors.New(\"size mismatch\")\n		}\n		return nil\n	}\n	return err\n}\n\nfunc (a *SSHAdapter) verifyUpload"}}},
+}
+
+// inDownloadArm: is return r part of the code that handles a download up to the publish? A function such as the
+// custom adapter's DoTransfer also serves uploads; a success return there is about another direction. The
+// download arm is taken to be: the blocks that can reach the publish, plus the blocks dominated by the block
+// that decides for the publish's arm (approximated by: r is reachable from a block that also reaches the publish
+// and lies after the first hash test / within the same switch arm). Conservatively: r's block is reachable from
+// the immediate dominator chain of the publish within 6 dominators that is not the function entry.
+func inDownloadArm(p *Prog, fn *ssa.Function, r *ssa.Return, pub ssa.Instruction) bool {
+	pb := pub.Block()
+	// the arm root: the highest dominator of the publish from which every path to a return stays within blocks
+	// that mention the transfer being downloaded; approximated structurally by the nearest dominator that ends
+	// in a direction test or, failing that, the function entry.
+	root := fn.Blocks[0]
+	for d := pb.Idom(); d != nil; d = d.Idom() {
+		if ifi, ok := lastInstr(d).(*ssa.If); ok {
+			if mentionsDirection(ifi.Cond) {
+				// the successor on the way to the publish
+				for _, s := range d.Succs {
+					if s == pb || s.Dominates(pb) {
+						root = s
+					}
+				}
+				break
+			}
+		}
+	}
+	return root == r.Block() || root.Dominates(r.Block())
+}
+
+func mentionsDirection(v ssa.Value) bool {
+	found := false
+	var walk func(v ssa.Value, d int)
+	walk = func(v ssa.Value, d int) {
+		if d > 4 || found {
+			return
+		}
+		if _, f, _, ok := FieldOf(v); ok && (f == "direction" || f == "Direction") {
+			found = true
+			return
+		}
+		switch x := v.(type) {
+		case *ssa.BinOp:
+			walk(x.X, d+1)
+			walk(x.Y, d+1)
+		case *ssa.UnOp:
+			walk(x.X, d+1)
+		case *ssa.Phi:
+			for _, e := range x.Edges {
+				walk(e, d+1)
+			}
+		}
+	}
+	walk(v, 0)
+	return found
 }
